@@ -352,6 +352,8 @@ class Exec(StmtMixin, CallMixin):
     def norm_index(self, arr_name, i, n, st, node):
         """numba/numpy index normalisation: negative wraps; emits the in-bounds obligation (code mode)"""
         i = to_int(i)
+        if self.spec and not isinstance(i, int):
+            return i  # specification indices are mathematical: no wrap-around, keeps quantifier patterns matchable
         if isinstance(i, int) and i >= 0:
             ni = i
         elif isinstance(i, int):
